@@ -1,14 +1,17 @@
 package auth
 
 import (
+	"bytes"
 	"crypto/tls"
 	"encoding/base64"
+	"encoding/json"
 	"fmt"
 	"log"
 	"net"
 	"net/http"
 	"strings"
 	"time"
+	"unicode/utf8"
 
 	"raven/internal/blobstorage"
 	"raven/internal/conf"
@@ -276,6 +279,14 @@ func authenticateUser(deps ServerDeps, conn net.Conn, tag string, username strin
 		return
 	}
 
+	// The address verified by the auth server must be the address the session is bound to afterwards.
+	// ExtractUsername/GetUserDomain only agree with it for "local" or "local@domain", and JSON can only
+	// carry valid UTF-8 unaltered, so anything else is refused before the auth server is asked.
+	if strings.Count(username, "@") > 1 || !utf8.ValidString(username) || !utf8.ValidString(password) {
+		deps.SendResponse(conn, fmt.Sprintf("%s NO [AUTHENTICATIONFAILED] Authentication failed", tag))
+		return
+	}
+
 	// Determine the email address to use for authentication
 	var email string
 	if strings.Contains(username, "@") {
@@ -285,11 +296,18 @@ func authenticateUser(deps ServerDeps, conn net.Conn, tag string, username strin
 		email = username + "@" + cfg.Domain
 	}
 
-	// Prepare JSON body
-	requestBody := fmt.Sprintf(`{"email":"%s","password":"%s"}`, email, password)
+	// Prepare JSON body (marshalled, so that quotes and backslashes in the credentials cannot alter it)
+	requestBody, err := json.Marshal(struct {
+		Email    string `json:"email"`
+		Password string `json:"password"`
+	}{email, password})
+	if err != nil {
+		deps.SendResponse(conn, fmt.Sprintf("%s NO [SERVERBUG] Internal error", tag))
+		return
+	}
 
 	// Create HTTP request
-	req, err := http.NewRequest("POST", cfg.AuthServerURL, strings.NewReader(requestBody))
+	req, err := http.NewRequest("POST", cfg.AuthServerURL, bytes.NewReader(requestBody))
 	if err != nil {
 		deps.SendResponse(conn, fmt.Sprintf("%s NO [SERVERBUG] Internal error", tag))
 		return
@@ -301,7 +319,7 @@ func authenticateUser(deps ServerDeps, conn net.Conn, tag string, username strin
 		InsecureSkipVerify: true, // #nosec G402 -- Required for internal auth server communication
 	}
 	transport := &http.Transport{TLSClientConfig: tlsConfig}
-	client := &http.Client{Transport: transport}
+	client := &http.Client{Transport: transport, Timeout: 10 * time.Second}
 
 	resp, err := client.Do(req)
 	if err != nil {
